@@ -206,6 +206,8 @@ def op_term(o):
         return "OShutdown"
     if k == "drain":
         return "ODrain %d" % o.get("n", 1)
+    if k == "sleep":                     # the model has no clock: time passing changes nothing
+        return "ODrain 0"
     if k in ("armw", "relw"):
         return "OWGate %d" % o["s"]
     if k == "cancelline":
